@@ -12,3 +12,18 @@ def register(claim):
           "points against the six lifecycle clauses (totality, absorbing, no way back, created, request permission, enum plumbing).",
           NOTE_COMMON + " Nine cancel-reject cells (acknowledged -> PENDING_NEW) are pinned by existing tests and listed as known findings.",
           "DESIGN.md#c16")
+
+    claim("C08", "SQL text parsing + CFG must-pass-through (commit post-dominates DML), who-may-touch",
+          "Static, all paths of every Journaler method: each INSERT/UPDATE/DELETE (classified from the parsed SQL text) is followed by "
+          "conn.commit() on every non-raising path, no commit splits one operation, the connection stays in implicit-transaction mode, a "
+          "key-violating statement is the first DML of its transaction, a message row is never committed without its counter update, no "
+          "durability-lowering PRAGMA exists, and only journaler.py touches sqlite3/.conn/.cursor.",
+          NOTE_COMMON + " SQLite's atomic commit and the OS are trusted; byte-for-byte retrievability after a real kill is not decided.",
+          "DESIGN.md#c08")
+    claim("C13", "SQL text parsing, placeholder/argument role binding, sibling loader cross-check",
+          "Static over the journaler's 11 SQL statements: declared keys, session+direction isolation of every statement on message, role "
+          "agreement of every '?' with its argument (incl. mirror-image CompIDs and FIXSession constructor order), one counter encoding "
+          "across all writers and both loaders, inclusive ascending range query, paired unconditional truncation, duplicate store fails "
+          "before the counter moves.",
+          NOTE_COMMON + " Equality with a reference map over arbitrary operation sequences is not decided; SQLite semantics trusted.",
+          "DESIGN.md#c13")
